@@ -254,6 +254,11 @@ func generate(w *mon.W) {
 	var fills []string
 	gen.EnumStrings(hostile, 2, func(s string) bool { fills = append(fills, s); return true })
 	fills = append(fills, idioms...)
+	// characters that become a quote, a backslash, an escape letter, … when cut
+	// down to one byte: alone, after a backslash, before a quote
+	for _, ch := range gen.LowByteLookalikes {
+		fills = append(fills, ch, "\\"+ch, "a"+ch+"'", ch+"\"", "\\"+ch+"\\"+ch)
+	}
 	rng := gen.RNG(w.Seed, "c04")
 	nr := w.Pick(150, 6000)
 	for i := 0; i < nr; i++ {
